@@ -79,7 +79,8 @@ class Tracer(object):
         self.events.append(("leave",))
 
     def bounded_block_begin(self, length):
-        self.events.append(("block_begin", length))
+        # a negative length is an already exhausted block (every read gives 1, nothing is stored): the same as length 0
+        self.events.append(("block_begin", max(0, length)))
         return self._r.bounded_block_begin(length)
 
     def bounded_block_end(self, t):
